@@ -325,8 +325,8 @@ X02_DeletedGone == ~exists => /\ \A p \in Parts : ~paused[p] /\ ~leading[p] /\ ~
 \* an open subscription has received everything that is stored in its partition, in order
 X02_SubsSeeLog == \A s \in SubIds : subs[s].st = "wait" => exists /\ subs[s].got = log[subs[s].p]
 
-\* no call ever crashes the server or the caller
-X02_NoCrash == obs.res # "panic"
+\* no call ever crashes the server or the caller, or fails to return
+X02_NoCrash == obs.res \notin {"panic", "hang"}
 
 \* --- step predicates: unprimed = before the call, primed = after; parameters as the call names them
 LogsKept == \A q \in Parts : IsPrefix(log[q], log'[q])
@@ -341,6 +341,7 @@ P_Publish(p, path, m) ==
   /\ (r = "ok") => log'[p] = Append(log[p], m)
   /\ (r \in {"readonly", "notfound"}) => log' = log /\ paused' = paused
   /\ (r = "readonly") = (exists /\ ro[p] /\ path # "subject")
+  /\ (exists /\ ro[p]) => log' = log                       \* a read-only partition takes nothing, over any path
   /\ (r = "notfound") = (~exists /\ path # "subject")
   \* a publish over the Liftbridge API to a partition that can take it is stored and acknowledged:
   \* a paused partition is resumed - the message that triggers the resume is not dropped
@@ -358,6 +359,7 @@ P_Pause(Q, ra) ==
   /\ log' = log /\ ro' = ro /\ exists' = exists
   /\ exists => /\ \A q \in QQ : paused'[q]
                /\ FlagsKept(Parts \ QQ)
+               /\ resumeAll' = ra                  \* the promise "a publish to any partition resumes all" is taken
 
 P_Readonly(Q, b) ==
   LET QQ == IF Q = {} THEN Parts ELSE Q IN
@@ -415,6 +417,7 @@ P_PubEnd ==
   /\ OnlyLog(pend.p, pend.m) /\ ro' = ro /\ exists' = exists
   /\ (r = "ok") => log'[pend.p] = Append(log[pend.p], pend.m)
   /\ (r \in {"readonly", "notfound"}) => log' = log
+  /\ (~exists \/ ro[pend.p]) => log' = log /\ r # "ok"
   /\ \A q \in Parts : paused'[q] # paused[q] => paused[q] /\ (q = pend.p \/ resumeAll)
 
 P_SubEnd ==
